@@ -38,6 +38,12 @@ ASSUMPTIONS = [
     "keep a reference to the parameter list and read it at generate() time; init(values) hands over the level lists); a user edit of a "
     "bound between two runs therefore changes what the later run is compared with; vectors returned by generate() belong to the caller, "
     "who may overwrite them",
+    "levels and bounds given as objects of mixed kinds (strings, big Python ints, bools, None, Fractions, Decimals, numpy scalars, tuples) "
+    "reach the model as level indices (level j = index of the first level equal to it); Box-Behnken bounds of that stream are numbers "
+    "whose binary64 mid level (l + u) / 2 does not fall outside [l, u] (two integers beyond 2**53 closer than one ulp are counted, not used)",
+    "second pass under python -O: doe.py rejects invalid inputs with assert statements, which do not exist there; comparisons whose MODEL "
+    "answer is that rejection (Err EAssert; build_gsd with reduction < 2 or n < 1: its ValueError made from an AssertionError) are skipped "
+    "and counted in that pass, with the direct-oracle entries of the same case; the normal pass compares them",
     "the generalized-subset-design theorems are conditional on build_gsd not raising (level counts >= 2, reduction >= 2); "
     "C13_gsd_succeeds shows it does not raise for >= 2 factors when the reduction does not exceed any level count",
 ]
@@ -107,8 +113,23 @@ def run(ctx):
     sizes = Counter()
     cap = ctx.pick(5000, 60000)
 
+    # Second pass under `python -O` (core.py runs every check again in a child interpreter started with -O): doe.py rejects
+    # invalid inputs with `assert` (pbdesign: n > 0 and a supported size; bbdesign: n >= 3; _map_partitions_to_design behind
+    # build_gsd: reduction >= 2, level counts >= 2 ...), and by Python's own semantics those statements do not exist there, so
+    # an input that ONLY an assert rejects takes some other path (another exception kind, or a design for an input outside
+    # the documented domain).  That is not a statement of C13 (which is about valid inputs).  Under -O every comparison
+    # whose MODEL answer is the assert rejection (`OErr 1` = Err EAssert; for build_gsd with reduction < 2 or n < 1 also
+    # `OErr 2`: its argument validation is `try: assert ... except AssertionError: raise ValueError`) is therefore skipped and
+    # counted after the comparison, together with the direct-oracle entries of that same case; everything else is kept, so behaviour that hides
+    # in an assert on VALID inputs still shows.  `owner` ties each direct-oracle entry to the comparison of its case.
+    import sys
+    OPT = bool(sys.flags.optimize)
+    pending, owner = [], {}
+
     def fail(what, inp, kind):
-        ctx.oracle_failures.append({"what": what, "input": inp, "match": dict(kind=kind, **inp)})
+        f = {"what": what, "input": inp, "match": dict(kind=kind, **inp)}
+        ctx.oracle_failures.append(f)
+        pending.append((f, kind))
 
     def call(f):
         try:
@@ -124,6 +145,8 @@ def run(ctx):
     def push(kind, case, exp, m, key, nontrivial=True):
         # a (case, observed) pair that is literally the one already sent to Coq has the same verdict: it is counted, not
         # re-evaluated (the runs of a history between two user edits are all compared with the model on the same bounds / levels)
+        owner.setdefault(pushed.get((case, exp), len(cases)), []).extend(pending)
+        del pending[:]
         if (case, exp) in pushed:
             kinds[kind] += 1
             kinds["identical_to_an_earlier_comparison"] += 1
@@ -1342,7 +1365,380 @@ def run(ctx):
         effects["build_plackett_burman on %d-element lists: caller's list overwritten (lst[1] = lst[-1]) and dict entry rebound to lst[:2]: %s"
                 % (len(lst), "yes" if (keep == [lst[0], lst[-1]] + lst[2:] and dpb["a"] == [lst[0], lst[-1]]) else "no")] += 1
 
-    ctx.coq_compare("c13", HEADER, "c13_case", "c13_obs", "c13_run", "c13_obs_eqb", cases, expected, meta, shard=ctx.pick(24, 60))
+    # ---- red-team round 6 (rule 11 payload shapes, rule 8 numeric scale): levels and bounds as OBJECTS of mixed kinds ------
+    # Every stream above hands float levels (or containers of one numeric dtype) to the generators and reads the design back
+    # through float(): a design that returns a COERCED level (the entry of an array built from the level list: numbers next
+    # to a string become strings, a Python int above 2**53 next to a float becomes the nearest double, so two neighbouring
+    # integers collapse into one level) was invisible.  Here the level lists / bounds of ONE factor mix kinds: strings next
+    # to numbers, numeric strings next to the numbers they spell, Python ints beyond 2**53 / 2**63 / 2**64 next to floats
+    # and next to each other, bools, None, Fractions, Decimals, numpy scalars of several dtypes, tuples as levels.  The
+    # design must consist of the GIVEN levels: cells are compared with Python's == after separating str from number by type
+    # (lkey: 0 and 0.0 are the same level; '1' and 1, 2**53+1 and 9007199254740992.0, (1, 2) and [1, 2] are not).  For the
+    # model the levels of a factor are opaque symbols: level j stands as float(index of the first level equal to it), and a
+    # returned cell is looked up among the given levels of its factor (-1.0 = not one of them).
+    from fractions import Fraction
+    from decimal import Decimal
+    mixed = Counter()
+
+    def lkey(v):
+        """a level as the property sees it: hashable, equal exactly when the two objects are the same level"""
+        if isinstance(v, np.generic):
+            try:
+                v = v.item()
+            except Exception:
+                pass
+        if isinstance(v, str):
+            return ("s", str(v))
+        if v is None:
+            return ("none",)
+        if isinstance(v, (bool, int, float, Fraction, Decimal)):
+            return ("n", v)
+        if isinstance(v, tuple):
+            return ("t", tuple(lkey(x) for x in v))
+        if isinstance(v, list):
+            return ("l", tuple(lkey(x) for x in v))
+        if isinstance(v, np.ndarray):
+            return ("a", str(v.dtype), repr(v.tolist()))
+        return ("o", type(v).__name__, repr(v))
+
+    def sym(levels):
+        """the levels of one factor as opaque symbols: index list for the model, lookup table for the returned cells"""
+        table, idx = {}, []
+        for j, v in enumerate(levels):
+            idx.append(table.setdefault(lkey(v), float(j)))
+        return idx, table
+
+    def show(levels):
+        return [repr(v) for v in levels]
+
+    def key_rows(rows):
+        return [[lkey(x) for x in r] for r in rows]
+
+    def oracle_full_obj(levels, rows, inp, kind, subset=False):
+        want, got, rep = Counter(), Counter(), {}
+        for c in itertools.product(*levels):
+            kc = tuple(lkey(v) for v in c)
+            want[kc] += 1
+            rep.setdefault(kc, list(c))
+        for r in rows:
+            kr = tuple(lkey(x) for x in r)
+            got[kr] += 1
+            rep.setdefault(kr, list(r))
+        if subset:
+            if got - want:
+                fail("GSDGenerator returns a run that is not a combination of the GIVEN levels (or more often than the full factorial "
+                     "has it): %r (cells are compared with == and, str against number, by type)"
+                     % ([rep[q] for q in list((got - want).keys())[:2]],), inp, kind)
+        elif got != want:
+            fail("full factorial is not every combination of the GIVEN levels exactly once: %d rows for %d combinations, missing %r, "
+                 "surplus %r (cells are compared with == and, str against number, by type)"
+                 % (len(rows), sum(want.values()), [rep[q] for q in list((want - got).keys())[:2]],
+                    [rep[q] for q in list((got - want).keys())[:2]]), inp, kind)
+
+    def oracle_bb_obj(bounds, rows, inp):
+        n = len(bounds)
+        if n < 3:
+            return
+        mid = [lkey((lb + ub) / 2) for lb, ub in bounds]
+        want = Counter()
+        for i, j in itertools.combinations(range(n), 2):
+            for a in bounds[i]:
+                for b in bounds[j]:
+                    r = list(mid)
+                    r[i], r[j] = lkey(a), lkey(b)
+                    want[tuple(r)] += 1
+        want[tuple(mid)] += 1
+        got = Counter(tuple(r) for r in key_rows(rows))
+        if got != want:
+            fail("Box-Behnken design for %d factors is not the +/- corners of every factor pair (the GIVEN bounds) plus one centre run: "
+                 "%d rows (expected %d), missing %r, surplus %r"
+                 % (n, len(rows), sum(want.values()), list((want - got).keys())[:2], list((got - want).keys())[:2]), inp, "bb")
+
+    def finish_mixed(knd, okind, api, case, key, inp, out, e, must, tables, orc):
+        m = dict(inp, kind="mixed:" + knd)
+        if e is not None:
+            errors[e] += 1
+            if must:
+                fail("%s raised %s on levels of mixed kinds" % (api, e), inp, okind)
+            if case is not None:
+                push("mixed:" + knd, case, "OErr %s" % nl(ERR.get(e, 9)), dict(m, error=e), key, nontrivial=False)
+            return
+        try:
+            rows = [list(r) for r in out]
+        except Exception as ex:
+            fail("%s returned something that is not a list of rows: %r" % (api, ex), inp, okind)
+            if case is not None:
+                push("mixed:" + knd, case, "OErr 9", dict(m, error="unreadable"), key, nontrivial=False)
+            return
+        orc(rows)
+        if case is None:
+            del pending[:]
+            mixed["%s: direct oracle only (a computed mid level equals a bound: no symbol order for the model)" % api] += 1
+            return
+        k = len(tables)
+        obs = [[tables[i].get(lkey(x), -1.0) if i < k else -1.0 for i, x in enumerate(r)] for r in rows]
+        push("mixed:" + knd, case, rows_lit(obs), dict(m, rows=len(rows)), key, nontrivial=len(rows) > 1)
+
+    def do_mixed_levels(api, levels, flavours, outer="list", inner="list", reduction=2):
+        """build_full_fact / FullFactorLevelsGenerator / GSDGenerator on level lists whose entries are objects of mixed kinds"""
+        k = len(levels)
+        conts = [tuple(lv) if inner == "tuple" else list(lv) for lv in levels]
+        inp = {"levels": [show(lv) for lv in levels], "level_kinds": list(flavours), "level_container": inner}
+        syms = [sym(lv) for lv in levels]
+        idx, tables = [s[0] for s in syms], [s[1] for s in syms]
+        if api == "build_full_fact":
+            d = {"x_%d" % i: c for i, c in enumerate(conts)}
+            inp["function"] = api
+            f = lambda: doe.build_full_fact(d)
+        else:
+            arg = tuple(conts) if outer == "tuple" else list(conts)
+            inp.update(generator=api, outer_container=outer)
+            g = getattr(ops, api)(parameters=[{"name": "U_%d" % i} for i in range(k)])
+            if api == "GSDGenerator":
+                g.init(arg, reduction=reduction)
+                inp["reduction"] = reduction
+            else:
+                g.init(arg)
+            f = g.generate
+        before = [[lkey(v) for v in c] for c in conts]
+        out, e = call(f)
+        for fv in set(flavours):
+            mixed["%s: factor with levels of kind %s" % (api, fv)] += 1
+        if [[lkey(v) for v in c] for c in conts] != before or any(a is not b for c, lv in zip(conts, levels) for a, b in zip(c, lv)):
+            fail("%s modified a level list it was given" % api, inp, "purity")
+        key = ("mixed", api, outer, inner, reduction, tuple(tuple(s) for s in inp["levels"]))
+        if api == "GSDGenerator":
+            case = "CGSDGen %s %s" % (ll(idx, lambda v: ll(v, fl)), nl(reduction))
+            finish_mixed("gsd_gen", "gsd_gen", api, case, key, inp, out, e, False, tables,
+                         lambda rows: oracle_full_obj(levels, rows, inp, "gsd_gen", subset=True))
+        else:
+            case = "CFullLevels %s %s" % (ll(idx, lambda v: ll(v, fl)), nl(k))
+            finish_mixed("full_levels", "fullfact_levels", api, case, key, inp, out, e, k >= 1, tables,
+                         lambda rows: oracle_full_obj(levels, rows, inp, "fullfact_levels"))
+
+    def do_mixed_bounds(api, bounds, flavours, center=False, inner="list"):
+        """the generators that read the parameters' bounds, and build_plackett_burman / build_box_behnken on two- resp.
+        three-level lists, with bounds that are objects of mixed kinds (Box-Behnken and center=True: numbers only)"""
+        n = len(bounds)
+        inp = {"bounds": [show(b) for b in bounds], "bound_kinds": list(flavours)}
+        params = [{"name": "x_%d" % i, "bounds": [b[0], b[1]]} for i, b in enumerate(bounds)]
+        key = ("mixed", api, bool(center), inner, tuple(tuple(s) for s in inp["bounds"]))
+        for fv in set(flavours):
+            mixed["%s: factor with bounds of kind %s" % (api, fv)] += 1
+        if api in ("FullFactorGenerator", "PlackettBurmanGenerator", "BoxBehnkenGenerator"):
+            inp["generator"] = api
+            g = getattr(ops, api)(parameters=params)
+            if api == "FullFactorGenerator":
+                g.init(center)
+                inp["center"] = bool(center)
+            f = g.generate
+        else:
+            inp.update(function=api, level_container=inner)
+            if api == "build_plackett_burman":
+                lists = [[b[0], b[1]] for b in bounds]
+            else:
+                lists = [sorted([b[0], (b[0] + b[1]) / 2, b[1]]) for b in bounds]
+                inp["level_lists"] = [show(v) for v in lists]
+            d = {"x_%d" % i: (tuple(v) if inner == "tuple" else v) for i, v in enumerate(lists)}
+            f = lambda: getattr(doe, api)(d)
+        out, e = call(f)
+        if any(p["bounds"][0] is not b[0] or p["bounds"][1] is not b[1] or len(p["bounds"]) != 2 for p, b in zip(params, bounds)):
+            fail("%s modified the bounds of the parameters it was given" % api, inp, "purity")
+        if api == "FullFactorGenerator":
+            levels = [[b[0], (b[0] + b[1]) / 2.0, b[1]] if center else [b[0], b[1]] for b in bounds]
+            syms = [sym(lv) for lv in levels]
+            case = "CFullLevels %s %s" % (ll([s[0] for s in syms], lambda v: ll(v, fl)), nl(n))
+            finish_mixed("full", "fullfact", api, case, key, inp, out, e, n >= 1, [s[1] for s in syms],
+                         lambda rows: oracle_full_obj(levels, rows, inp, "fullfact"))
+        elif api in ("PlackettBurmanGenerator", "build_plackett_burman"):
+            syms = [sym([b[0], b[1]]) for b in bounds]
+            case = "CPB %s" % ll([s[0] for s in syms], lambda v: pl(fl(v[0]), fl(v[1])))
+            kb = [(lkey(b[0]), lkey(b[1])) for b in bounds]
+            finish_mixed("pb", "pb", api, case, key, inp, out, e, 1 <= n <= 23, [s[1] for s in syms],
+                         lambda rows: oracle_pb(kb, key_rows(rows), inp))
+        else:
+            tables, sb = [], []
+            for lo, hi in bounds:
+                md = (lo + hi) / 2
+                if lo < md < hi:
+                    sb.append((0.0, 2.0))
+                elif lo > md > hi:
+                    sb.append((2.0, 0.0))
+                else:
+                    sb = None
+                    break
+                tables.append({lkey(lo): sb[-1][0], lkey(md): 1.0, lkey(hi): sb[-1][1]})
+            case = None if sb is None else "CBB %s" % ll(sb, lambda v: pl(fl(v[0]), fl(v[1])))
+            finish_mixed("bb", "bb", api, case, key, inp, out, e, n >= 3, tables, lambda rows: oracle_bb_obj(bounds, rows, inp))
+
+    M_SMALL = [0, 1, 2, 3, -1, 7, 10, 0.5, 1.5, -2.5, 0.1, 1e-9, 1e6, 3.0, 0.30000000000000004, 1e300, 5e-324]
+    M_FLOATS = [0.5, 1.5, -2.5, 0.1, 0.25, 1e6, 1e-9, 3.0]
+    M_STRS = ["off", "on", "auto", "a", "bcd", "1", "2.0", "", "None", "nan", "low", "high", "0.5", "x" * 30]
+    M_BASES = [2 ** 53, 2 ** 53, 2 ** 54, 10 ** 17, 2 ** 62, 2 ** 63 - 2, 2 ** 63, 2 ** 64 - 2, 2 ** 64, 10 ** 30, -(2 ** 53) - 4, -(2 ** 63) - 2]
+    M_TUPLES = [(0, 1), (1, 0), (1, 1), (0, 0), (0.5, "a"), (2,), (1, 2, 3), ((1, 2), 3), (), ("x", None), (2 ** 53 + 1, 0.5)]
+    M_FRACS = [Fraction(1, 3), Fraction(2, 3), Fraction(5, 2), Fraction(-7, 4), Fraction(2 ** 53 + 1, 1), Fraction(1, 10)]
+    M_DECS = [Decimal("0.1"), Decimal("2.50"), Decimal("1E+3"), Decimal("-0.75"), Decimal("9007199254740993")]
+    M_NP = [np.float32(0.1), np.float32(2.5), np.float16(0.1), np.float64(0.3), np.int64(2 ** 53 + 1), np.int64(3), np.int8(-3),
+            np.uint8(200), np.int64(2 ** 62 + 1), np.bool_(True), np.str_("np"), np.uint64(2 ** 64 - 1)]
+    M_NP_NUM = [np.float32(0.1), np.float32(2.5), np.float64(0.3), np.int64(2 ** 53 + 1), np.int64(3), np.int32(-3), np.float16(0.75)]
+
+    def distinct(vals):
+        seen, out = set(), []
+        for v in vals:
+            if lkey(v) not in seen:
+                seen.add(lkey(v))
+                out.append(v)
+        return out
+
+    def mixed_factor(flavour, L):
+        """L level objects of one factor (distinct as levels, except now and then); the first two are also used as bounds"""
+        def some(pool, cnt):
+            return rng.sample(pool, cnt) if cnt <= len(pool) else [rng.choice(pool) for _ in range(cnt)]
+        a = rng.randint(1, L - 1) if L > 1 else 1
+        b = max(L - a, 0)
+        if flavour == "str+num":
+            v = some(M_STRS, a) + some(M_SMALL, b)
+        elif flavour == "str":
+            v = some(M_STRS, L)
+        elif flavour in ("bigint+float", "bigint"):
+            base = rng.choice(M_BASES)
+            ints = [base + dlt for dlt in some([0, 1, 2, 3, 5], a if flavour == "bigint+float" else L)]
+            v = ints + (some(M_FLOATS, b) if flavour == "bigint+float" else [])
+            if flavour == "bigint" and rng.random() < 0.3 and L > 1:
+                v[-1] = rng.choice([-1, 0, 1, -(2 ** 53) - 1])
+        elif flavour == "int+float":
+            v = some([0, 1, 2, 3, -1, 7, 10, 2 ** 31, 2 ** 53 - 1], a) + some(M_FLOATS, b)
+        elif flavour == "bool+num":
+            v = some([True, False], min(a, 2)) + some([0.5, 2, 3, -1, 2.5, 7], L - min(a, 2))
+        elif flavour == "none+num":
+            v = [None] + some(M_SMALL, L - 1)
+        elif flavour == "fraction+num":
+            v = some(M_FRACS, a) + some(M_SMALL[:13], b)
+        elif flavour == "decimal+int":
+            v = some(M_DECS, a) + some([0, 1, 2, 3, -1, 7, 2 ** 53 + 2], b)
+        elif flavour == "np_scalars":
+            v = some(M_NP, a) + some(M_SMALL[:13], b)
+        elif flavour == "np_numbers":
+            v = some(M_NP_NUM, a) + some(M_FLOATS, b)
+        elif flavour == "tuple":
+            v = some(M_TUPLES, L)
+        else:
+            v = some(M_FLOATS, L)
+        v = v[:L]
+        if rng.random() < 0.9:
+            v = distinct(v)
+            while len(v) < L:                                  # top up with fresh plain numbers
+                v = distinct(v + [rng.choice([11, 12, 13, 14, 15, 16.5, 17.5, 18.5])])
+        rng.shuffle(v)
+        return v
+
+    M_ANY = ["str+num", "str", "bigint+float", "bigint", "int+float", "bool+num", "none+num", "fraction+num", "decimal+int",
+             "np_scalars", "np_numbers", "tuple", "float"]
+    M_NUM = ["bigint+float", "bigint", "int+float", "bool+num", "fraction+num", "np_numbers", "float"]   # closed under (l + u) / 2, ordered
+
+    def numeric_bounds(flavour):
+        """two distinct numbers of the given kind whose binary64 mid level (l + u) / 2 does not fall outside [l, u]: two integers
+        beyond 2**53 that are closer than one ulp (10**17 + 1, 10**17 + 2: mid 1e17) have no representable mid level at all, and
+        list.sort() in build_box_behnken then takes the rounded mid for the low level - a rounding effect of the mid level, outside
+        the float assumption of this check and nothing to do with which level OBJECTS are returned; counted, not used"""
+        while True:
+            lo, hi = mixed_factor(flavour, 2)
+            if lkey(lo) == lkey(hi):
+                continue
+            md = (lo + hi) / 2
+            if min(lo, hi) <= md <= max(lo, hi):
+                return (lo, hi)
+            mixed["bounds not used: the binary64 mid level of two large integers lies outside the bounds"] += 1
+
+    # the cases the idea is usually met in, first (a switch-like factor; two neighbouring large integers next to a float)
+    for api in ("build_full_fact", "FullFactorLevelsGenerator"):
+        do_mixed_levels(api, [["off", 1, 2], [0.5, 1.5]], ["str+num", "float"])
+        do_mixed_levels(api, [[2 ** 53, 2 ** 53 + 1, 0.5], [0, 1]], ["bigint+float", "int+float"])
+        do_mixed_levels(api, [[1, 2, 3], [0.5, 1.5], ["a", "b"]], ["int+float", "float", "str"])
+        do_mixed_levels(api, [[0, 0.5, 1], [True, 2.5]], ["int+float", "bool+num"], inner="tuple")
+    do_mixed_levels("GSDGenerator", [["off", 1, 2], [2 ** 53 + 1, 2 ** 53 + 2, 0.5]], ["str+num", "bigint+float"])
+    do_mixed_bounds("PlackettBurmanGenerator", [(0.5, 2 ** 53 + 1), (0, 3), (1.5, 2.5)], ["bigint+float", "int+float", "float"])
+    do_mixed_bounds("build_plackett_burman", [("off", 1), (2 ** 53 + 1, 0.5), ("lo", "hi")], ["str+num", "bigint+float", "str"])
+    do_mixed_bounds("FullFactorGenerator", [(0.5, 2 ** 53 + 1), (0, 3)], ["bigint+float", "int+float"], center=False)
+    do_mixed_bounds("FullFactorGenerator", [(0.5, 2 ** 53 + 1), (0, 3)], ["bigint+float", "int+float"], center=True)
+    do_mixed_bounds("BoxBehnkenGenerator", [(0.5, 2 ** 53 + 1), (0, 3), (2 ** 54 + 2, 1.5)], ["bigint+float", "int+float", "bigint+float"])
+    do_mixed_bounds("build_box_behnken", [(0.5, 2 ** 53 + 1), (0, 3), (1.5, 2 ** 54 + 2)], ["bigint+float", "int+float", "bigint+float"], inner="tuple")
+    # every kind once per entry point (so that each run of the check covers all of them), next to a plain factor
+    for fv in M_ANY:
+        for api in ("build_full_fact", "FullFactorLevelsGenerator", "GSDGenerator"):
+            L = rng.choice([2, 3, 3, 4])
+            lv = [mixed_factor(fv, L), mixed_factor(rng.choice(["float", "int+float"]), rng.choice([2, 3]))]
+            fvs = [fv, "plain"]
+            if rng.random() < 0.5:
+                lv.reverse()
+                fvs.reverse()
+            do_mixed_levels(api, lv, fvs, outer=rng.choice(["list", "tuple"]), inner=rng.choice(["list", "list", "tuple"]),
+                            reduction=2)
+        pair = tuple(distinct(mixed_factor(fv, 2))[:2])
+        if len(pair) == 2:
+            others = [tuple(mixed_factor("float", 2)) for _ in range(rng.choice([1, 2, 4]))]
+            for api in ("PlackettBurmanGenerator", "build_plackett_burman", "FullFactorGenerator"):
+                do_mixed_bounds(api, [pair] + others, [fv] + ["float"] * len(others))
+    for fv in M_NUM:
+        bnds = [numeric_bounds(fv), numeric_bounds(rng.choice(M_NUM)), numeric_bounds("float")]
+        rng.shuffle(bnds)
+        do_mixed_bounds("FullFactorGenerator", bnds[:2], [fv, "numbers"], center=True)
+        do_mixed_bounds("BoxBehnkenGenerator", bnds, [fv, "numbers", "float"])
+        do_mixed_bounds("build_box_behnken", bnds, [fv, "numbers", "float"], inner=rng.choice(["list", "tuple"]))
+    # generated: 1..4 factors, every factor of its own kind
+    for s in range(ctx.pick(40, 400)):
+        api = rng.choice(["build_full_fact", "FullFactorLevelsGenerator", "FullFactorLevelsGenerator", "GSDGenerator"])
+        k = rng.choice([1, 2, 2, 3, 3, 4]) if api != "GSDGenerator" else rng.choice([2, 2, 3, 3])
+        fvs = [rng.choice(M_ANY) for _ in range(k)]
+        Ls = [rng.choice([1, 2, 2, 3, 3, 4] if api != "GSDGenerator" else [2, 2, 3, 3, 4]) for _ in range(k)]
+        do_mixed_levels(api, [mixed_factor(fv, L) for fv, L in zip(fvs, Ls)], fvs, outer=rng.choice(["list", "tuple"]),
+                        inner=rng.choice(["list", "list", "tuple"]), reduction=rng.choice([2, 2, 3]))
+    for s in range(ctx.pick(30, 300)):
+        api = rng.choice(["PlackettBurmanGenerator", "build_plackett_burman", "FullFactorGenerator", "FullFactorGenerator",
+                          "BoxBehnkenGenerator", "build_box_behnken"])
+        if api in ("PlackettBurmanGenerator", "build_plackett_burman"):
+            n = rng.choice([1, 2, 3, 3, 4, 5, 7, 8, 11, 12])
+        elif api == "FullFactorGenerator":
+            n = rng.choice([1, 2, 2, 3, 4])
+        else:
+            n = rng.choice([3, 3, 4, 5])
+        center = api == "FullFactorGenerator" and rng.random() < 0.5
+        if center or api in ("BoxBehnkenGenerator", "build_box_behnken"):
+            fvs = [rng.choice(M_NUM) for _ in range(n)]
+            bnds = [numeric_bounds(fv) for fv in fvs]
+        else:
+            fvs = [rng.choice(M_ANY) for _ in range(n)]
+            bnds = [tuple(mixed_factor(fv, 2)) for fv in fvs]
+        do_mixed_bounds(api, bnds, fvs, center=center, inner=rng.choice(["list", "tuple"]) if api == "build_box_behnken" else "list")
+
+    bad = ctx.coq_compare("c13", HEADER, "c13_case", "c13_obs", "c13_run", "c13_obs_eqb", cases, expected, meta, shard=ctx.pick(24, 60))
+    n_assert = sum(1 for x in expected if x.startswith("OErr 1"))
+    ctx.extra["comparisons_in_which_the_code_raised_AssertionError"] = n_assert
+    if not OPT:
+        ctx.notes.append("%d comparisons of this pass are inputs the code rejects with an `assert` (the model answers Err EAssert, compared "
+                         "here); in the second pass under python -O, where assert statements do not exist, the comparisons whose model "
+                         "answer is Err EAssert are skipped and counted, with the direct-oracle entries of the same case" % n_assert)
+    elif bad:
+        show = sorted(set(bad))[:800]
+        try:
+            vals = ctx.coq_eval("c13_opt", HEADER, ["c13_run (%s)" % cases[i] for i in show], timeout=600)
+        except RuntimeError as ex:               # fail closed: every mismatch stays
+            vals = []
+            ctx.notes.append("python -O: the model answers of the mismatching cases could not be evaluated (%r); nothing skipped" % (ex,))
+        vals = [v.replace("%nat", "").strip() for v in vals]
+        # build_gsd validates its arguments by `try: assert ... except AssertionError: raise ValueError` (reduction > 1, n > 0):
+        # assert statements as well, whose rejection reaches the caller (and the model) as a ValueError
+        rejected = set(i for i, v in zip(show, vals)
+                       if v == "OErr 1" or (v == "OErr 2" and meta[i].get("function") == "build_gsd"
+                                            and (meta[i].get("reduction", 2) < 2 or meta[i].get("n", 1) < 1)))
+        drop = set(id(f) for i in rejected for f, kd in owner.get(i, []) if kd != "purity")
+        n_m, n_f = len(ctx.mismatches), len(ctx.oracle_failures)
+        ctx.mismatches[:] = [m for m in ctx.mismatches if not (m.get("correspondence") == "c13" and m.get("case_index") in rejected)]
+        ctx.oracle_failures[:] = [f for f in ctx.oracle_failures if id(f) not in drop]
+        ctx.extra["python_O_skipped"] = {"comparisons_whose_model_answer_is_the_assert_rejection": n_m - len(ctx.mismatches),
+                                         "direct_oracle_entries_of_those_cases": n_f - len(ctx.oracle_failures)}
+        ctx.notes.append("python -O: %d comparisons whose model answer is Err EAssert (an input only an assert rejects) and %d direct-oracle "
+                         "entries of those cases skipped" % (n_m - len(ctx.mismatches), n_f - len(ctx.oracle_failures)))
     ctx.rule = ("generator runs for factor counts 0..8 (Plackett-Burman 0..27 plus a few sizes up to 47, Box-Behnken up to %d), bounds and level "
                 "lists over a value grid with reversed / coincident bounds and repeated level values, reductions 0..8 and 0..r+3 complementary "
                 "designs; plus HISTORIES on one shared parameter list / one Problem (every ordered pair of the six generator configurations, "
@@ -1356,7 +1752,11 @@ def run(ctx):
                 "first level and end point), of build_box_behnken with two- and three-level containers, and of build_full_fact / "
                 "FullFactorLevelsGenerator / GSDGenerator / fullfact / build_gsd with level containers and level-count containers of every "
                 "representation the unchanged code accepts (list, tuple, float64 / float32 / integer arrays, linspace, arange, range, lists "
-                "of numpy scalars): "
+                "of numpy scalars); level lists and bounds whose entries are OBJECTS of mixed kinds (strings next to numbers, Python "
+                "ints beyond 2**53 / 2**63 / 2**64 next to floats and to each other, bools, None, Fractions, Decimals, numpy scalars, "
+                "tuples as levels) through build_full_fact, FullFactorLevelsGenerator, GSDGenerator, FullFactorGenerator, "
+                "PlackettBurmanGenerator / build_plackett_burman and (numbers only) BoxBehnkenGenerator / build_box_behnken, the returned "
+                "cells compared with the GIVEN level objects (==, str against number by type) and, as level indices, with the model: "
                 "every run of a history is compared with the model on the bounds / levels the user's structures hold at the time of the "
                 "call (the harness's own record, which follows the user's edits and never reaches artap), and the shared structures must be bit-identical before and after every run; a case is non-trivial when the implementation returned a design (rejected sizes are compared too but not "
                 "counted); distinct = distinct (generator, parameters) resp. (history so far, parameters)") % ctx.pick(8, 12)
@@ -1368,7 +1768,8 @@ def run(ctx):
                       "ordered_pairs_of_generator_configurations_seen_adjacent": "%d of 36" % len(adjacent),
                       "ordered_pairs_missing": sorted("%s -> %s" % (a, b) for a in CONFIGS for b in CONFIGS if (a, b) not in adjacent),
                       "doe_argument_effects_observed": dict(sorted(effects.items())),
-                      "input_shapes_of_direct_doe_calls": dict(sorted(shapes.items()))})
+                      "input_shapes_of_direct_doe_calls": dict(sorted(shapes.items())),
+                      "levels_and_bounds_of_mixed_kinds": dict(sorted(mixed.items()))})
 
 
 LEVEL_TEXT = ("Machine-checked Coq theorems over an executable model of fullfact/construct_df, pbdesign, bbdesign and build_gsd with its "
